@@ -19,8 +19,8 @@ def simulate(qc, skip=("barrier", "cut_wire")):
     for inst in qc.data:
         nm = inst.operation.name
         qs = [qc.find_bit(q).index for q in inst.qubits]
-        if nm in skip:
-            continue
+        if nm in skip or not qs:
+            continue   # directives, markers, and operations without qubit operands (a global phase leaves the density matrix alone)
         if nm == "qpd_2q":
             lab = inst.operation.label or ""
             if "move" in lab:
